@@ -5,7 +5,7 @@
    impl result  = M#res  (M = d|r: the build's arithmetic mode)
    model result = res            when debug and release arithmetic give the same result
                 | resD || resR   otherwise
-   Since the repairs 8e2deb3 / 309cc90 / 5955e8e / 84a8f8b the model of the transformed glyf decoder
+   Since the repairs 33c9cfe / 86608df / 093eba0 / aa2eefe the model of the transformed glyf decoder
    has no build-dependent arithmetic left outside the translated dx/dy code and never panics
    (Props/C11.v: C11_glyf_decoder_total): the second form is not expected to occur any more, and a
    panic of the implementation is a violation that no known finding absorbs. *)
